@@ -5,6 +5,8 @@ import (
 	"fmt"
 	"math/bits"
 
+	"berty.tech/go-ipfs-log/iface"
+
 	"verifharness/evid"
 	"verifharness/hx"
 	"verifharness/model"
@@ -15,7 +17,7 @@ import (
 func CheckC04(run *evid.Run) {
 	nh := pick(run.Tier, 2000, 30000)
 	run.Rule = "every Append of seeded histories (lopsided clocks, forks, shared writers, pointer counts 1..64; a fifth of them 'manyheads': one long chain merged with 7-16 short logs so that there are more heads than the pointer count; every other one with refused operations and forks; a third with CONCURRENT BURSTS - appends || merges || reads on one replica - before the appends that are checked) incl. appends after SetIdentity to another writer and after the log was rebuilt from storage by each loader; snapshot-before / returned entry / snapshot-after compared with the model (next = heads before, clock id = current writer's key, time > every entry held, single head after, refs inside past(next), disjoint from next, duplicate-free, |refs| <= floor(log2 pc)+2, and the appended entry dominates the log: every entry held is in its causal past); non-trivial append = on a log with >=2 heads or holding entries of another writer; distinct = (heads before, entries before, pc, writer-changed, reloaded) class digest"
-	opts := hx.GenOpts{MaxSteps: pick(run.Tier, 45, 80), Orders: []string{"default", "hash", "fww", "revhash"}, Extra: true,
+	opts := hx.GenOpts{MaxSteps: pick(run.Tier, 45, 80), Orders: []string{"default", "hash", "fww", "revhash"}, Extra: true, Codecs: []string{"cbor", "cbor", "link", "pb"},
 		Shapes: []string{"lopsided", "mixed", "widefork", "diamond", "lopsided", "overlap", "twins", "ring"}}
 	parallel(nh, func(i int) {
 		o2 := opts
@@ -72,7 +74,7 @@ func CheckC04(run *evid.Run) {
 			e := hx.ToModel(res.Entry)
 			sp := special[s.R]
 			delete(special, s.R)
-			d := det("pc", s.PC, "after", sp, "shape", h.Shape)
+			d := det("pc", s.PC, "after", sp, "shape", h.Shape, "codec", h.Codec)
 			if sp != "" {
 				run.Count("appends_after_"+sp, 1)
 			}
@@ -195,9 +197,11 @@ func CheckC05(run *evid.Run) {
 		o2.Failures = i%2 == 1
 		o2.Bursts = i%3 == 0
 		o2.Extra = i%4 == 1 // identity changes and rebuilds from storage
+		o2.Truncated = i%5 == 4
 		h := hx.Gen(run.Seed, i, o2)
 		x := hx.NewExec(h)
 		shadow := map[string]string{}
+		objShadow := map[iface.IPFSLogEntry]string{} // keeps the objects alive, so no address is ever reused
 		prev := make([]*hx.Obs, h.Replicas)
 		var tr histTrack
 		for k, s := range h.Steps {
@@ -253,6 +257,12 @@ func CheckC05(run *evid.Run) {
 					if s.Op == "join" && o.Len > lenBefore {
 						tr.mergeAdded = true
 					}
+				}
+				for obj, od := range o.Objs {
+					if d, ok := objShadow[obj]; ok && d != od {
+						run.Violate("C05/shared-entry-mutated", det("codec", h.Codec, "op", s.Op, "what", "in-memory side data"), wit(), "the entry object %s held by r%d was modified in place (encrypted-link side data) by %s", hx.Short(obj.GetHash().String()), r, where)
+					}
+					objShadow[obj] = od
 				}
 				for hsh, e := range o.Set {
 					if d, ok := shadow[hsh]; ok && d != e.Digest {
